@@ -1,14 +1,26 @@
 ---- MODULE MCSwitchRPC ----
-EXTENDS SwitchRPC
+EXTENDS SwitchRPC, IOUtils
 MCXids2 == <<"x1", "x2">>
 MCXids3 == <<"x1", "x2", "x3">>
 MCNoSkip == {}
 \* tags whose expected answer the unpatched tree does not give (open findings):
 \* removed from Next in the "deep" simulation so that long behaviours are not
 \* all cut short at the first known deviation
-MCSkipOpen == {"FlowMod-addbad-none"}
+MCSkipOpen == {}     \* (no finding is open at present)
 MCXids1 == <<"x1">>
 \* edge-cover exports: freeze one group of dimensions, cover every transition of the rest
 FrozenCfg   == ml = 128 /\ fl = 0 /\ BoundedE
 FrozenTable == fs = {} /\ look = 0 /\ (\A p \in Ports : prx[p] = 0 /\ ptx[p] = 0) /\ (\A s \in 1..NB : pool[s] = 0)
+\* Edge cover of a deterministic 1/SAMPLE_N slice of the SOURCE states (environment
+\* C13_SAMPLE_N, C13_SAMPLE_K): every kind of transition is still exported from the
+\* chosen states; the quick tier uses N = 8 with K taken from the seed.
+B2N(b) == IF b THEN 1 ELSE 0
+StateHash == look + 2 * mat + 3 * Cardinality(fs) + 5 * fpk["f1"] + 7 * fpk["f2"]
+             + prx[1] + 3 * prx[2] + 5 * ptx[1] + 7 * ptx[2]
+             + B2N(down[1]) + 2 * B2N(down[2]) + pool[1] + B2N("f3" \in fs) + 2 * B2N("f1" \in fs)
+ExportQ == IF ToString(StateHash % 8) = IOEnv.C13_SAMPLE_K THEN ExportT ELSE TRUE
+ExportH == IF ToString(StateHash % 2) = IOEnv.C13_SAMPLE_K THEN ExportT ELSE TRUE
+\* quick tier: states with the fragment-handling flag set are generated and checked
+\* (every transition into them) but not expanded; MC_full1q and the thorough tier expand them
+BoundedQ == Bounded /\ fl = 0
 ====
